@@ -57,6 +57,22 @@ def _GOOD_APK():
     return _APK[0]
 
 
+def read_session_rows(conn):
+    """the identifier stored in each row of table session: column `id` if the table has one, else its primary-key column,
+    else the first column (the check must not assume more about the schema than the property says: one row per session)"""
+    cols = [(r[1], r[5]) for r in conn.execute("PRAGMA table_info(session)")]
+    if not cols:
+        return []
+    names = [c for c, _ in cols]
+    key = "id" if "id" in names else next((c for c, pk in cols if pk), names[0])
+    rows = [r[0] for r in conn.execute('select "%s" from session' % key)]
+    if "session_id" in names and key != "session_id":
+        # a second identifier column added later: rows written through it carry the identifier there
+        extra = [r[0] for r in conn.execute('select "session_id" from session')]
+        rows = [e if e is not None else r for r, e in zip(rows, extra)]
+    return rows
+
+
 _DATABASES = []     # every dataset.Database opened by the code under test in this body, this run
 
 
@@ -191,7 +207,7 @@ def _template(n: int):
     with open(path, "rb") as f:
         data = f.read()
     c = procsim._REAL_CONNECT(path)
-    ids = [r[0] for r in c.execute("select id from session order by id")]
+    ids = sorted(read_session_rows(c), key=repr)
     c.close()
     shutil.rmtree(d, ignore_errors=True)
     if len(set(ids)) != n:
@@ -318,7 +334,7 @@ def run_case(case: dict, recorded=None, strict=False) -> dict:
             with open(os.path.join(core.CORPUS_DIR, "db", "sessions-%d.db" % case["db_n"]), "rb") as f:
                 data = f.read()
             c0 = procsim._REAL_CONNECT(os.path.join(core.CORPUS_DIR, "db", "sessions-%d.db" % case["db_n"]))
-            pre_ids = [r[0] for r in c0.execute("select id from session order by id")]
+            pre_ids = sorted(read_session_rows(c0), key=repr)
             c0.close()
             with open(path, "wb") as f:
                 f.write(data)
@@ -341,7 +357,7 @@ def run_case(case: dict, recorded=None, strict=False) -> dict:
             c = procsim._REAL_CONNECT(path, timeout=5)
             try:
                 try:
-                    rows = [r[0] for r in c.execute("select id from session")]
+                    rows = read_session_rows(c)
                 except sqlite3.OperationalError as e:
                     if "no such table" not in str(e):
                         raise
